@@ -6,7 +6,7 @@ extern "C" {
   unsigned g_low, g_high; unsigned g_W; int g_W_written; unsigned char g_W_val;
   // ghost model of the output: records decoded from what fprintf was asked to print
   unsigned g_seg;            // current extended linear address according to the file so far
-  int g_w_emitted;           // how many data records covered W
+  int g_w_emitted; int g_w_pre; unsigned char g_w_byte_pre;           // how many data records covered W
   unsigned char g_w_byte;    // the byte the record carried for W
   int g_bad_checksum;        // any record with wrong checksum
   // current record being printed
@@ -27,7 +27,7 @@ int vf_printf(FILE *out, const char *fmt, long A0 = 0, long A1 = 0, long A2 = 0)
   }
   else if (fmt[0] == ':') // ":%02X%04X00"
   {
-    g_rec_len = ((int)AV[ai++]); g_rec_addr = ((unsigned)AV[ai++]); g_rec_sum = g_rec_len + (g_rec_addr >> 8) + (g_rec_addr & 0xff); g_rec_n = 0; g_in_rec = 1;
+    g_w_pre = g_w_emitted; g_w_byte_pre = g_w_byte; g_rec_len = ((int)AV[ai++]); g_rec_addr = ((unsigned)AV[ai++]); g_rec_sum = g_rec_len + (g_rec_addr >> 8) + (g_rec_addr & 0xff); g_rec_n = 0; g_in_rec = 1;
   }
   else if (fmt[4] == 0) // "%02X" data byte
   {
